@@ -75,7 +75,7 @@ m("C10", "C10-pop-no-underflow-test", "R10-bounds:Pop:underflow", ("state.go", "
 m("C10", "C10-lessthan-swapped", "R10-share:forward:(*LState).LessThan", ("state.go", "\treturn lessThan(ls, lhs, rhs)", "\treturn lessThan(ls, rhs, lhs)"))
 # ---- C11
 m("C11", "C11-dispatch-before-poll", "R11-poll", ("vm.go", "\t\tselect {\n\t\tcase <-L.ctx.Done():\n\t\t\tL.RaiseError(L.ctx.Err().Error())\n\t\t\treturn\n\t\tdefault:\n\t\t\tif jumpTable[int(inst>>26)](L, inst, baseframe) == 1 {\n\t\t\t\treturn\n\t\t\t}\n\t\t}", "\t\tif jumpTable[int(inst>>26)](L, inst, baseframe) == 1 {\n\t\t\treturn\n\t\t}\n\t\tselect {\n\t\tcase <-L.ctx.Done():\n\t\t\tL.RaiseError(L.ctx.Err().Error())\n\t\t\treturn\n\t\tdefault:\n\t\t}"))
-m("C11", "C11-newthread-keeps-plain-loop", "R11-loopsel:(*LState).NewThread:ctx-store", ("state.go", "\t\tthread.mainLoop = mainLoopWithContext\n\t\tthread.ctx, f = context.WithCancel(ls.ctx)", "\t\tthread.ctx, f = context.WithCancel(ls.ctx)"))
+m("C11", "C11-newthread-keeps-plain-loop", "R11-loopsel:(*LState).NewThread:ctx-store", ("state.go", "\t\tthread.mainLoop = mainLoopWithContext\n\t\tthread.ctx, f = context.WithCancel(base)", "\t\tthread.ctx, f = context.WithCancel(base)"))
 m("C11", "C11-receive-always-blocking", "R11-block:channelReceive", ("channellib.go", "\tif L.ctx != nil {\n\t\tcases := []reflect.SelectCase{{\n\t\t\tDir:  reflect.SelectRecv,\n\t\t\tChan: reflect.ValueOf(L.ctx.Done()),\n\t\t\tSend: reflect.ValueOf(nil),\n\t\t}, {\n\t\t\tDir:  reflect.SelectRecv,\n\t\t\tChan: rch,\n\t\t\tSend: reflect.ValueOf(nil),\n\t\t}}\n\t\t_, v, ok = reflect.Select(cases)\n\t} else {\n\t\tv, ok = rch.Recv()\n\t}", "\tv, ok = rch.Recv()"))
 m("C11", "C11-send-ignores-ctx", "R11-block:channelSend", ("channellib.go", "\tif L.ctx != nil {\n\t\tcases := []reflect.SelectCase{{\n\t\t\tDir:  reflect.SelectRecv,\n\t\t\tChan: reflect.ValueOf(L.ctx.Done()),\n\t\t\tSend: reflect.ValueOf(nil),\n\t\t}, {\n\t\t\tDir:  reflect.SelectSend,\n\t\t\tChan: rch,\n\t\t\tSend: reflect.ValueOf(v),\n\t\t}}\n\t\treflect.Select(cases)\n\t} else {\n\t\trch.Send(reflect.ValueOf(v))\n\t}", "\trch.Send(reflect.ValueOf(v))"))
 m("C11", "C11-done-arm-does-not-raise", "R11-poll:mainLoopWithContext:done-arm", ("vm.go", "\t\tcase <-L.ctx.Done():\n\t\t\tL.RaiseError(L.ctx.Err().Error())\n\t\t\treturn\n\t\tdefault:", "\t\tcase <-L.ctx.Done():\n\t\t\tL.Push(LString(L.ctx.Err().Error()))\n\t\tdefault:"))
@@ -111,13 +111,13 @@ m("C16", "C16-ostime-utc", "R16-time:osTime:local-zone", ("oslib.go", "t := time
 m("C16", "C16-malformed-number-nan", "R16-onereader:compiler-error-raises:compileExpr", ("compile.go", "\t\tif err != nil {\n\t\t\traiseCompileError(context, sline(ex), \"malformed number near '%s'\", ex.Value)\n\t\t}", "\t\tif err != nil {\n\t\t\tnum = LNumber(math.NaN())\n\t\t}"))
 # ---- C17
 m("C17", "C17-repeat-no-setline", "R17-setline:grammar:RepeatStmt", ("parse/parser.go", "\t\t\tyyVAL.stmt = &ast.RepeatStmt{Condition: yyDollar[4].expr, Stmts: yyDollar[2].stmts}\n\t\t\tyyVAL.stmt.SetLine(yyDollar[1].token.Pos.Line)", "\t\t\tyyVAL.stmt = &ast.RepeatStmt{Condition: yyDollar[4].expr, Stmts: yyDollar[2].stmts}"))
-m("C17", "C17-multiline-raw-readbyte", "R17-rawread:reader-user", ("parse/lexer.go", "\tch = sc.Next()\n\tif ch == '\\n' || ch == '\\r' {\n\t\tch = sc.Next()\n\t}\n\tfor {", "\tch = sc.Next()\n\tif ch == '\\n' || ch == '\\r' {\n\t\tb, _ := sc.reader.ReadByte()\n\t\tch = int(b)\n\t}\n\tfor {"))
+m("C17", "C17-multiline-raw-readbyte", "R17-rawread:reader-user", ("parse/lexer.go", "\tch := sc.Next()\n\tif ch == '\\n' || ch == '\\r' {\n\t\tch = sc.Next()\n\t}\n\tfor {", "\tch := sc.Next()\n\tif ch == '\\n' || ch == '\\r' {\n\t\tb, _ := sc.reader.ReadByte()\n\t\tch = int(b)\n\t}\n\tfor {"))
 m("C17", "C17-numberfor-early-return", "R17-blocks:paired:compileNumberForStmt", ("compile.go", "\tbodypc := code.LastPC()\n\tcompileChunk(context, stmt.Stmts, false)\n\n\tcontext.LeaveBlock()\n\n\tflpc := code.LastPC()", "\tbodypc := code.LastPC()\n\tcompileChunk(context, stmt.Stmts, false)\n\tif len(stmt.Stmts) == 0 && false {\n\t\treturn\n\t}\n\tif len(stmt.Stmts) > 0 {\n\t\tcontext.LeaveBlock()\n\t}\n\n\tflpc := code.LastPC()"))
 m("C17", "C17-where-reads-pc", "R17-where:(*LState).where", ("state.go", "line = fmt.Sprintf(\"%v:\", proto.DbgSourcePositions[cf.Pc-1])", "line = fmt.Sprintf(\"%v:\", proto.DbgSourcePositions[cf.Pc])"))
 # ---- C18
 m("C18", "C18-swap-copies", "R18-swap:Swap", ("table.go", "lv.Values[i], lv.Values[j] = lv.Values[j], lv.Values[i]", "lv.Values[i] = lv.Values[j]"))
 m("C18", "C18-less-args-swapped", "R18-swap:Less:comparator", ("table.go", "\t\tlv.L.Push(lv.Values[i])\n\t\tlv.L.Push(lv.Values[j])", "\t\tlv.L.Push(lv.Values[j])\n\t\tlv.L.Push(lv.Values[i])"))
-m("C18", "C18-remove-default-first", "R18-delegate:tableRemove:default-last", ("tablelib.go", "L.Push(tbl.Remove(-1))", "L.Push(tbl.Remove(1))"))
+m("C18", "C18-remove-default-first", "R18-delegate:tableRemove:default-last", ("tablelib.go", "\tpos := L.OptInt(2, n)\n", "\tpos := L.OptInt(2, 1)\n"))
 # ---- C19
 m("C19", "C19-read-no-closed-guard", "R19-closed:fileRead", ("iolib.go", "\tif n := fileIsReadable(L, file); n != 0 {\n\t\treturn n\n\t}\n\terrorIfFileIsClosed(L, file)\n\tif L.GetTop() == idx-1 {", "\tif n := fileIsReadable(L, file); n != 0 {\n\t\treturn n\n\t}\n\tif L.GetTop() == idx-1 {"))
 m("C19", "C19-write-error-exit-keeps-buffer", "R19-reconcile:fileWriteAux", ("iolib.go", "errreturn:\n\n\tfile.AbandonReadBuffer()\n\tL.Push(LNil)", "errreturn:\n\n\tL.Push(LNil)"))
@@ -177,7 +177,7 @@ m("C15", "C15-format-flags-subset", "R15-flags:defaultFormat:probes-all-printf-f
 m("C16", "C16-parsenumber-trimspace", "R16-onereader:parseNumber:c-locale-blanks-only", ("utils.go", "number = strings.Trim(number, \" \\t\\n\\r\\f\\v\")", "number = strings.TrimSpace(number)"))
 
 m("C18", "C18-sort-whole-array-part", "R18-arrayowner:reader:tableSort", ("tablelib.go", "tbl.array[:tbl.Len()]}", "tbl.array}"))
-m("C18", "C18-maxn-from-array-size", "R18-arrayowner:reader:tableMaxN", ("tablelib.go", "\tL.Push(LNumber(L.CheckTable(1).MaxN()))", "\tif tb := L.CheckTable(1); len(tb.array) > 0 && tb.MaxN() <= len(tb.array) {\n\t\tL.Push(LNumber(len(tb.array)))\n\t\treturn 1\n\t}\n\tL.Push(LNumber(L.CheckTable(1).MaxN()))"))
+m("C18", "C18-maxn-from-array-size", "R18-arrayowner:reader:tableMaxN", ("tablelib.go", "\tmax := LNumber(tbl.MaxN())\n", "\tmax := LNumber(tbl.MaxN())\n\tif len(tbl.array) > 0 {\n\t\tmax = LNumber(len(tbl.array))\n\t}\n"))
 m("C04", "C04-callr-passes-handler", "R04-callself:(*LState).callR:passes-called-object", ("state.go", "\t\tTailCall:   0,\n\t}, lv, meta)\n\tif ls.G.MainThread == nil {", "\t\tTailCall:   0,\n\t}, fn, meta)\n\tif ls.G.MainThread == nil {"))
 m("C14", "C14-repl-lookahead-too-strict", "R14-repl:flagScanner.Next:lookahead+1", ("utils.go", "if fs.Pos < (fs.Length-1) && fs.str[fs.Pos+1] == fs.flag {", "if fs.Pos < (fs.Length-2) && fs.str[fs.Pos+1] == fs.flag {"))
 m("C14", "C14-repl-lookahead-unguarded", "R14-repl:flagScanner.Next:lookahead+1", ("utils.go", "if fs.Pos < (fs.Length-1) && fs.str[fs.Pos+1] == fs.flag {", "if fs.Pos < fs.Length && fs.str[fs.Pos+1] == fs.flag {"))
@@ -191,7 +191,7 @@ m("C05", "C05-traceback-name-index-unguarded", "R05-tracesafe:(*LState).formatte
 m("C01", "C01-kmv-into-settable-object", "R01-kmv:compileAssignStmtLeft:kmv", ("compile.go", "\t\t\t\tcompileExprWithMVPropagation(context, st.Object, &reg, &ac.ec.reg)", "\t\t\t\tcompileExprWithKMVPropagation(context, st.Object, &reg, &ac.ec.reg)"))
 m("C01", "C01-kmv-into-test-register", "R01-kmv:compileBranchCondition:kmv", ("compile.go", "\tcompileExprWithMVPropagation(context, expr, &reg, &a)\n\tcode.AddABC(OP_TEST, a, 0, 0^flip, sline(expr))", "\tcompileExprWithKMVPropagation(context, expr, &reg, &a)\n\tcode.AddABC(OP_TEST, a, 0, 0^flip, sline(expr))"))
 
-m("C08", "C08-long-comment-falls-into-line-skip", "R08-comment:skipComments:long-comment-ends-at-bracket", ("parse/lexer.go", "\t\t\t\treturn sc.Error(buf.String(), \"invalid multiline comment\")\n\t\t\t}\n\t\t\treturn nil\n", "\t\t\t\treturn sc.Error(buf.String(), \"invalid multiline comment\")\n\t\t\t}\n"))
+m("C08", "C08-long-comment-falls-into-line-skip", "R08-comment:skipComments:long-comment-ends-at-bracket", ("parse/lexer.go", "\t\t\t\t\treturn sc.Error(buf.String(), \"invalid multiline comment\")\n\t\t\t\t}\n\t\t\t\treturn nil\n", "\t\t\t\t\treturn sc.Error(buf.String(), \"invalid multiline comment\")\n\t\t\t\t}\n"))
 m("C02", "C02-initcallframe-copy-keeps-top", "R02-copies:LState.initCallFrame", ("state.go", "func (ls *LState) initCallFrame(cf *callFrame) { // +inline-start\n\tif cf.Fn.IsG {\n\t\tls.reg.SetTop(cf.LocalBase + cf.NArgs)", "func (ls *LState) initCallFrame(cf *callFrame) { // +inline-start\n\tif cf.Fn.IsG {\n\t\tif top := cf.LocalBase + cf.NArgs; top > ls.reg.top {\n\t\t\tls.reg.SetTop(top)\n\t\t}"))
 
 m("C17", "C17-findlocal-queries-next-pc", "R17-scope:findLocal:queries-at-Pc-1", ("state.go", "fn.LocalName(no, frame.Pc-1)", "fn.LocalName(no, frame.Pc)"))
@@ -239,5 +239,15 @@ m("C09", "C09-next-vanished-array-key", "R09-owner:Next:vanished-array-key-start
 m("C01", "C01-forprep-no-string-conversion", "R01-forprep:OP_FORPREP:converts-string-control-values", ("vm.go", "\t\t\t// the control values may be strings that convert to numbers\n\t\t\tfor i := 0; i < 3; i++ {\n\t\t\t\tif str, ok := reg.Get(RA + i).(LString); ok {\n\t\t\t\t\tif num, err := parseNumber(string(str)); err == nil {\n\t\t\t\t\t\treg.Set(RA+i, num)\n\t\t\t\t\t}\n\t\t\t\t}\n\t\t\t}\n", ""))
 
 m("C06", "C06-host-body-ends-only-when-tailcalled", "ends-coroutine-for-any-last-host-frame", ("vm.go", "\tif L.Parent != nil && L.stack.Sp() == 1 {\n\t\t// the host function was the last frame", "\tif tailcall && L.Parent != nil && L.stack.Sp() == 1 {\n\t\t// the host function was the last frame"))
+
+# ---- io (F63-F69)
+m("C19", "C19-flush-keeps-read-ahead", "R19-buffers:fileFlushAux:gives-read-ahead-back", ("iolib.go", "\tif err := file.AbandonReadBuffer(); err != nil {\n\t\tL.Push(LNil)\n\t\tL.Push(LString(err.Error()))\n\t\treturn 2\n\t}\n\tL.Push(LTrue)\n\treturn 1\n}", "\tL.Push(LTrue)\n\treturn 1\n}"))
+m("C19", "C19-seek-without-flush", "R19-buffers:fileSeek:flushes-buffered-output-first", ("iolib.go", "\t// buffered output belongs before the position the file is about to leave\n\tif bwriter, ok := file.writer.(*bufio.Writer); ok {\n\t\tif err = bwriter.Flush(); err != nil {\n\t\t\tgoto errreturn\n\t\t}\n\t}\n", ""))
+m("C19", "C19-setvbuf-drops-pending-output", "R19-buffers:fileSetVBuf:flushes-the-buffer-it-replaces", ("iolib.go", "\t// the buffer that is being replaced may hold output\n\tif bwriter, ok := file.writer.(*bufio.Writer); ok {\n\t\tif err = bwriter.Flush(); err != nil {\n\t\t\tgoto errreturn\n\t\t}\n\t}\n", ""))
+m("C19", "C19-lines-iter-uses-readline", "R19-buffers:lines:one-reader-ending-at-newline-only", ("iolib.go", "\tbuf, err, iseof := readBufioLine(file.reader)\n\tif iseof {\n\t\tL.Push(LNil)\n\t\treturn 1\n\t}\n\tif err != nil {\n\t\tL.RaiseError(err.Error())\n\t}", "\tbuf, _, err := file.reader.ReadLine()\n\tif err == io.EOF {\n\t\tL.Push(LNil)\n\t\treturn 1\n\t}\n\tif err != nil {\n\t\tL.RaiseError(err.Error())\n\t}"))
+m("C19", "C19-output-no-trunc", "R19-buffers:ioOutput:opens-like-fopen-w", ("iolib.go", "os.O_WRONLY|os.O_CREATE|os.O_TRUNC, 0600, true, false)", "os.O_WRONLY|os.O_CREATE, 0600, true, false)"))
+m("C19", "C19-negative-read-count", "R19-buffers:fileReadAux:count-not-negative", ("iolib.go", "\t\t\tif size < 0 {\n\t\t\t\tL.ArgError(i, \"invalid count\")\n\t\t\t}\n", ""))
+m("C19", "C19-readline-eof-with-data", "R19-eofdata:readBufioLine:eof-only-when-empty", ("utils.go", "\tiseof := len(result) == 0 && err == io.EOF\n", "\tiseof := err == io.EOF\n"))
+
 if __name__ == "__main__":
     main()
